@@ -197,7 +197,9 @@ func (x *c08Exch) writeHeaderLocked(code int) {
 func (x *c08Exch) Flush() {}
 
 func (x *c08Exch) Write(p []byte) (int, error) {
-	x.run.gate("W:" + x.name) // the "client" stops reading: the write blocks where the SDK issued it
+	if strings.HasPrefix(x.hdr.Get("Content-Type"), "text/event-stream") {
+		x.run.gate("W:" + x.name) // the "client" stops reading the stream: the write blocks where the SDK issued it
+	}
 	x.mu.Lock()
 	defer x.mu.Unlock()
 	x.writeHeaderLocked(http.StatusOK)
